@@ -22,7 +22,9 @@ fn cell(idx: u64, rec: &mut Rec) {
     // 3: an unsolicited 100 Continue in front of the 3xx; 4: a request loaded with everything a redirect
     // strips or keeps (explicit Host, cookie, its own framing header) redirected to another authority;
     // 5: the Location is the very URI that was just requested (a cookie bounce): the table applies all the same
-    let variant = take(6);
+    // 6: an interim 103 with fields, seen in two looks, comes first and nothing follows the 3xx message in the window;
+    // 7: the chunked body of the 3xx is written with blanks in front of its chunk extensions
+    let variant = take(8);
     if v10 && !http10_method(method) {
         return;
     }
@@ -87,17 +89,40 @@ fn cell(idx: u64, rec: &mut Rec) {
             Err(e) => return rec.fail("C15/setup", format!("{}: {}", cfg.describe(), e)),
         }
     };
+    let chunked_body: &[u8] = if variant == 7 { b"3 ;ext=1\r\nabc\r\n0\t;last\r\n\r\n" } else { b"3\r\nabc\r\n0\r\n\r\n" };
     match body_kind {
         1 => stream.extend_from_slice(b"Content-Length: 3\r\n\r\nabc"),
-        2 => stream.extend_from_slice(b"Transfer-Encoding: chunked\r\n\r\n3\r\nabc\r\n0\r\n\r\n"),
+        2 => {
+            stream.extend_from_slice(b"Transfer-Encoding: chunked\r\n\r\n");
+            stream.extend_from_slice(chunked_body);
+            if variant == 7 {
+                rec.cov("chunked-3xx-body-with-blanks-before-extensions");
+            }
+        }
         _ => stream.extend_from_slice(b"\r\n"),
+    }
+    let mut f = f;
+    if variant == 6 {
+        let interim = b"HTTP/1.1 103 Early Hints\r\nLink: </style/site.css>; rel=preload; as=style\r\nLink: </script/app.js>; rel=preload; as=script\r\n\r\n";
+        rec.cov("after-an-interim-103-seen-in-two-looks");
+        match f.try_response(&interim[..100]) {
+            Ok((0, None)) => {}
+            other => return rec.fail("C15/setup", format!("first 100 bytes of the interim response: {:?}", other.map(|v| (v.0, v.1.is_some())))),
+        }
+        match f.try_response(interim) {
+            Ok((n, Some(_))) if n == interim.len() => {}
+            other => return rec.fail("C15/setup", format!("the interim response: {:?}", other.map(|v| (v.0, v.1.is_some())))),
+        }
     }
     if variant == 3 {
         stream.splice(0..0, b"HTTP/1.1 100 Continue\r\n\r\n".iter().copied());
         rec.cov("after-unsolicited-100");
     }
     let total = stream.len();
-    stream.extend_from_slice(b"HTTP/1.1 200 OK\r\n\r\n");
+    let tail_len = if variant == 6 { 0 } else { 19 };
+    if variant != 6 {
+        stream.extend_from_slice(b"HTTP/1.1 200 OK\r\n\r\n");
+    }
     rec.call();
     let (end, obs, consumed, _body) = match fast_response(f, &stream) {
         Ok(v) => v,
@@ -126,7 +151,7 @@ fn cell(idx: u64, rec: &mut Rec) {
         }
     };
     // HEAD never has a body, whatever the header says
-    let expect_consumed = if method == "HEAD" { stream.len() - 19 - if body_kind == 1 { 3 } else if body_kind == 2 { 13 } else { 0 } } else { total };
+    let expect_consumed = if method == "HEAD" { stream.len() - tail_len - if body_kind == 1 { 3 } else if body_kind == 2 { chunked_body.len() } else { 0 } } else { total };
     if consumed != expect_consumed {
         return rec.fail("C15/consumed", format!("{} {}: consumed {} expected {}", method, status, consumed, expect_consumed));
     }
@@ -211,7 +236,7 @@ impl Property for P {
         vec!["the table is restated from the property text in wire::redirect_method".into()]
     }
     fn workloads(&self, _tier: Tier) -> Vec<Workload> {
-        vec![Workload::new("table", 9 * 100 * 2 * 3 * 2 * 6, true, "full product; HTTP/1.0 cells for methods that do not exist in 1.0 are skipped")]
+        vec![Workload::new("table", 9 * 100 * 2 * 3 * 2 * 8, true, "full product; HTTP/1.0 cells for methods that do not exist in 1.0 are skipped")]
     }
     fn run_case(&self, _wl: &str, idx: u64, _seed: u64, rec: &mut Rec) {
         cell(idx, rec)
@@ -229,6 +254,8 @@ impl Property for P {
             ("expect-refused-by-3xx".into(), 500),
             ("after-unsolicited-100".into(), 500),
             ("second-hop/followed".into(), 500),
+            ("after-an-interim-103-seen-in-two-looks".into(), 500),
+            ("chunked-3xx-body-with-blanks-before-extensions".into(), 500),
         ]
     }
 }
